@@ -148,7 +148,10 @@ def init_walkers(ctx):
             return True
         if par.op == "getitem" and par.args[0] is child:
             ix = par.args[1]
-            cols = ix.args[1] if ix.op == "tuple" and len(ix.args) == 2 else None
+            # the column axis is the last one: [:, ::-1] on one matrix, [:, :, ::-1] / [..., ::-1] on a batch of them
+            cols = ix.args[-1] if ix.op == "tuple" and len(ix.args) >= 2 and all(
+                a_.op == "slice" and all(not hasattr(b_, "op") or (b_.op == "const" and b_.args[0] is None) for b_ in a_.args)
+                or (a_.op == "const" and a_.args[0] is Ellipsis) for a_ in ix.args[:-1]) else None
             if cols is not None and cols.op == "slice" and len(cols.args) >= 2:
                 lo, hi = cols.args[0], cols.args[1]
                 st = cols.args[2] if len(cols.args) > 2 else None
@@ -273,6 +276,17 @@ def init_walkers(ctx):
                             a = strip_wrappers(call_parts(y)[1][0])
                             if a.op == "getitem" and a.args[1].op == "const" and a.args[1].args[0] in (0, 1):
                                 return a.args[1].args[0]
+                    # one batched decomposition of both spin blocks: eigh(rdm1)[1][<column reversal>][s]
+                    for y in subterms(x):
+                        if y.op == "getitem" and y.args[1].op == "const" and y.args[1].args[0] in (0, 1) and \
+                                not isinstance(y.args[1].args[0], bool):
+                            b = strip_wrappers(y.args[0])
+                            while b.op == "getitem" and b.args[1].op in ("tuple", "slice"):
+                                b = strip_wrappers(b.args[0])
+                            if b.op == "getitem" and b.args[1].op == "const" and b.args[1].args[0] == 1 and \
+                                    strip_wrappers(b.args[0]).op == "call" and \
+                                    (func_name(strip_wrappers(b.args[0])) or "").split(".")[-1] in ("eigh", "_eigh"):
+                                return y.args[1].args[0]
                     return None
 
                 seen = set()
